@@ -9,6 +9,7 @@ C18, round 4 (T1b): do the three SGR consumers agree on EVERY parameter list?
   lists on which it does, for any pair of configurations: at every position both consumers take the same step.
 -/
 import VaxisModel.Lemmas.Sgr
+import VaxisModel.Model.SgrAgree
 
 namespace VaxisModel.Lemmas.SgrAgree
 open VaxisModel VaxisModel.Gen VaxisModel.Model.Sgr VaxisModel.Lemmas.Sgr
@@ -116,60 +117,6 @@ theorem cfgSame_of_B (c1 c2 : Cfg) (h : cfgSameB c1 c2 = true) : CfgSame c1 c2 :
   rcases hp with rfl | rfl | rfl | rfl <;> simp
 
 /-! ### `NewStyledString` against the `[][]int` consumers: a class of lists on which every step is the same -/
-
-/-- After a bare 38 / 48 / 58: a complete legacy form whose look-ahead parameters have no sub-parameters; the number of
-    parameters both consumers pass over. -/
-def legacyOK : Seq → Option Nat
-  | [5] :: [_] :: _ => some 2
-  | [2] :: [_] :: [_] :: [_] :: _ => some 4
-  | _ => none
-
-/-- `case 38 / 48 / 58` with the parameter `p :: subs`: do both consumers do the same, and how many parameters do they skip? -/
-def extStep (ci cs : Cfg) (p : Nat) (subs : List Nat) (rest : Seq) : Option Nat :=
-  let n := subs.length + 1
-  let ai := ci.accepts p n
-  let as := cs.accepts p n
-  if n = 1 then
-    if ai && as then
-      match legacyOK rest with
-      | some k => some k
-      | none => if rest.isEmpty then some 0 else none
-    else if !ai && !as then some 0 else none
-  else if n = 3 then
-    if ai && as then (if subs.head? = some 5 then some 0 else none)
-    else if !ai && !as then some 0 else none
-  else if n = 5 then
-    if ai && as then (if subs.head? = some 2 then some 0 else none)
-    else if !ai && !as then some 0 else none
-  else if n = 6 then (if !ai then some 0 else none)
-  else some 0
-
-/-- The underline style `case 4` assigns (none: style left alone). -/
-def ulEff (cfg : Cfg) (subs : List Nat) : Option Nat :=
-  if !cfg.accepts 4 (subs.length + 1) then none
-  else match subs with
-    | [] => some SgrCases.UnderlineSingle
-    | k :: _ => if cfg.ulSubs.contains k then some (ulConst k) else none
-
-/-- One position of the list: `some k` = both consumers make the same change and pass over `k` further parameters. -/
-def agreeStep (ci cs : Cfg) (cur : Param) (rest : Seq) : Option Nat :=
-  match cur with
-  | [] => none
-  | p :: subs =>
-    if !ci.labels.contains p && !cs.labels.contains p then some 0
-    else if p = 21 then some 0
-    else if ci.labels.contains p != cs.labels.contains p then none
-    else if isExt p then extStep ci cs p subs rest
-    else if p = 4 then (if ulEff ci subs = ulEff cs subs then some 0 else none)
-    else some 0
-
-def agreeLoop (ci cs : Cfg) : Nat → Seq → Bool
-  | _, [] => true
-  | k + 1, _ :: rest => agreeLoop ci cs k rest
-  | 0, cur :: rest =>
-    match agreeStep ci cs cur rest with
-    | some k => agreeLoop ci cs k rest
-    | none => false
 
 theorem legacyOK_some (rest : Seq) (k : Nat) (h : legacyOK rest = some k) :
     (∃ v tl, rest = [5] :: [v] :: tl ∧ k = 2) ∨ (∃ r g b tl, rest = [2] :: [r] :: [g] :: [b] :: tl ∧ k = 4) := by
